@@ -51,9 +51,40 @@ structure Acc where
   branches : List State
   /-- `tx` ops whose ranges were not exactly the model's -/
   inexact : Nat
+  /-- promptness bookkeeping (SOFT, reported as `late=<µs>` on the next `tx` with an ACK frame): the time
+      since which EVERY branch wants an ACK out — `Active` with ranges since that op, or the armed
+      delay timer's deadline -/
+  due : Option Nat := none
+  /-- the latest op time seen -/
+  clock : Nat := 0
   deriving Repr
 
-def Acc.init : Acc := ⟨[], 0⟩
+def Acc.init : Acc := ⟨[], 0, none, 0⟩
+
+/-- when (at the latest) the model state wants an ACK frame sent -/
+def wantTime (s : State) (now : Nat) : Option Nat :=
+  if s.ackRanges.isEmpty then none
+  else if s.transmissionState.isActive then some now
+  else
+    match s.transmissionState, s.ackDelayTimer with
+    | .passive _, some exp => some exp
+    | _, _ => none
+
+def dueAfter (old : Option Nat) (bs : List State) (now : Nat) : Option Nat :=
+  match bs with
+  | [] => none
+  | _ =>
+    if bs.all (fun s => (wantTime s now).isSome) then
+      let m := bs.foldl (fun acc s => max acc ((wantTime s now).getD 0)) 0
+      match old with
+      | some d => some (min d m)
+      | none => some m
+    else none
+
+def opTime : TOp → Option Nat
+  | .rx t _ _ _ _ => some t
+  | .tx t _ _ _ _ => some t
+  | _ => none
 
 /-- an armed timer this far in the past must have fired (the connection timer wakes the connection
     at the expiration; allowance for the 1 ms timer granularity on both sides) -/
@@ -157,7 +188,7 @@ def acceptTxAck (a : Acc) (t ownPn : Nat) (ae : Bool) (obs : List Interval) (m :
     match mapOpt (fun s => complete s ownPn ae) (goodAck a.branches t obs m) with
     | some next =>
       let exact := (goodAck a.branches t obs m).any (fun s => obs == AckRanges.ackRanges s.ackRanges)
-      ({ branches := dedup next, inexact := if exact then a.inexact else a.inexact + 1 },
+      ({ a with branches := dedup next, inexact := if exact then a.inexact else a.inexact + 1 },
        .ok s!"b={(dedup next).length} exact={boolStr exact}")
     | none => (a, .err "model-panic")
 
@@ -189,13 +220,27 @@ def lostState (pns : List Nat) (s : State) : State := pns.foldl (fun s pn => onP
 def acceptLost (a : Acc) (pns : List Nat) : Acc × Ans :=
   ({ a with branches := dedup (a.branches.map (lostState pns)) }, .ok s!"b={(dedup (a.branches.map (lostState pns))).length}")
 
-def accept (a : Acc) : TOp → Acc × Ans
+/-- the checks proper (promptness bookkeeping aside) -/
+def acceptCore (a : Acc) : TOp → Acc × Ans
   | .cfg mad limit => acceptCfg a mad limit
   | .rx t pn ae ce pc => acceptRx a t pn ae ce pc
   | .tx t ownPn ae (some obs) m => acceptTxAck a t ownPn ae obs m
   | .tx t _ ae none m => acceptTxNoAck a t ae m
   | .acked rs => acceptAcked a rs
   | .lost pns => acceptLost a pns
+
+/-- how long the ACK frame of this `tx` is overdue w.r.t. the model (0 when not) -/
+def lateness (a : Acc) : TOp → Nat
+  | .tx t _ _ (some _) _ => match a.due with | some d => t - d | none => 0
+  | _ => 0
+
+def accept (a : Acc) (op : TOp) : Acc × Ans :=
+  let r := acceptCore a op
+  let clock := match opTime op with | some t => max a.clock t | none => a.clock
+  let ans := match r.2, op with
+    | .ok info, .tx _ _ _ (some _) _ => .ok (info ++ s!" late={lateness a op}")
+    | x, _ => x
+  ({ r.1 with due := dueAfter a.due r.1.branches clock, clock := clock }, ans)
 
 /-- a whole trace: the answers in op order -/
 def acceptAll (a : Acc) : List TOp → List Ans
